@@ -322,6 +322,63 @@ func (b *bp) nilPosts(fn *ssa.Function) []nilPost {
 	return out
 }
 
+// nilResLen: result index -> k with len(result) >= k at every return whose error is the nil constant
+// (every other return carries a definitely non-nil error)
+func (b *bp) nilResLen(fn *ssa.Function) map[int]int64 {
+	if b.nilLen == nil {
+		b.nilLen = map[*ssa.Function]map[int]int64{}
+	}
+	if m, ok := b.nilLen[fn]; ok {
+		return m
+	}
+	b.nilLen[fn] = nil
+	res := fn.Signature.Results()
+	if res.Len() < 2 || fn.Blocks == nil || !isErrorType(res.At(res.Len()-1).Type()) {
+		return nil
+	}
+	f := b.forFn(fn)
+	var rets []*ssa.Return
+	for _, blk := range fn.Blocks {
+		r, ok := blk.Instrs[len(blk.Instrs)-1].(*ssa.Return)
+		if !ok {
+			continue
+		}
+		ev := r.Results[len(r.Results)-1]
+		if isNilConst(ev) {
+			rets = append(rets, r)
+			continue
+		}
+		if !definitelyNonNilErr(ev) && !f.nonNilAt(blk, ev) {
+			return nil
+		}
+	}
+	if len(rets) == 0 {
+		return nil
+	}
+	out := map[int]int64{}
+	for ri := 0; ri < res.Len()-1; ri++ {
+		if !hasLen(res.At(ri).Type()) {
+			continue
+		}
+		for _, k := range []int64{4, 3, 2, 1} {
+			all := true
+			for _, r := range rets {
+				t, o := f.lenTerm(r.Results[ri])
+				if !f.prove(point{r.Block(), len(r.Block().Instrs) - 1}, goal{zeroT, t, o - k}, nil, 1) {
+					all = false
+					break
+				}
+			}
+			if all {
+				out[ri] = k
+				break
+			}
+		}
+	}
+	b.nilLen[fn] = out
+	return out
+}
+
 func isErrorType(t types.Type) bool {
 	n, ok := t.(*types.Named)
 	return ok && n.Obj().Pkg() == nil && n.Obj().Name() == "error"
@@ -393,6 +450,16 @@ func (f *bpFn) errNilFacts(bo *ssa.BinOp, tv bool, out *[]dfact) {
 	fn := c.Call.StaticCallee()
 	if fn == nil || !f.bp.p.IsRepoFn(fn) {
 		return
+	}
+	// lengths of the other results when the error is nil (a helper that builds a list and returns
+	// (list, nil) only after filling it)
+	for ri, k := range f.bp.nilResLen(fn) {
+		for _, ref := range *c.Referrers() {
+			if ex, ok := ref.(*ssa.Extract); ok && ex.Index == ri {
+				t, o := f.lenTerm(ex)
+				*out = append(*out, dfact{zeroT, t, o - k, fmt.Sprintf("len of result %d of %s when its error is nil", ri, fn.Name())})
+			}
+		}
 	}
 	posts := f.bp.nilPosts(fn)
 	if len(posts) == 0 {
